@@ -35,7 +35,7 @@ def validate(module: nn.LSTM) -> List[UnsupportedModuleError]:
 
 
 @register_module_fixer(nn.LSTM)
-def fix(module: nn.LSTM) -> DPLSTM:
+def fix(module: nn.LSTM, **kwargs) -> DPLSTM:
     dplstm = DPLSTM(
         input_size=module.input_size,
         hidden_size=module.hidden_size,
